@@ -17,21 +17,55 @@ fn big_stack<T: Send + 'static>(f: impl FnOnce() -> T + Send + 'static) -> T {
         .unwrap()
 }
 
-pub fn ser_ctx() -> Ctx {
-    big_stack(|| {
-        let mut ctx = Ctx::default();
-        vtypes_gen::run_ser(&mut ctx);
-        ctx
-    })
+const PARTS: usize = 16;
+
+fn merge(into: &mut Ctx, c: Ctx) {
+    into.types += c.types;
+    into.values += c.values;
+    into.pairs += c.pairs;
+    into.triples += c.triples;
+    into.variants += c.variants;
+    into.digest = into.digest.wrapping_add(c.digest);
+    for b in c.bad {
+        into.fail(b);
+    }
 }
 
+fn in_parts(f: fn(&mut Ctx, usize, usize)) -> Ctx {
+    let rich = vshape::RICH.load(std::sync::atomic::Ordering::Relaxed);
+    let hs: Vec<_> = (0..PARTS)
+        .map(|part| {
+            std::thread::Builder::new()
+                .stack_size(256 << 20)
+                .spawn(move || {
+                    vshape::RICH.store(rich, std::sync::atomic::Ordering::Relaxed);
+                    let mut ctx = Ctx::default();
+                    f(&mut ctx, part, PARTS);
+                    ctx
+                })
+                .unwrap()
+        })
+        .collect();
+    let mut all = Ctx::default();
+    for h in hs {
+        merge(&mut all, h.join().unwrap());
+    }
+    all
+}
+
+/// C12 over the whole universe (the type list is split over 16 threads)
+pub fn ser_ctx() -> Ctx { in_parts(vtypes_gen::run_ser) }
+
+/// C13 over the whole universe
 pub fn hash_ctx() -> Ctx {
-    big_stack(|| {
+    let mut all = in_parts(vtypes_gen::run_hash);
+    let extra = big_stack(|| {
         let mut ctx = Ctx::default();
-        vtypes_gen::run_hash(&mut ctx);
         vshape::check_histories(&mut ctx);
         ctx
-    })
+    });
+    merge(&mut all, extra);
+    all
 }
 
 pub fn type_ids() -> Vec<(&'static str, u128)> { vtypes_gen::type_ids() }
